@@ -152,6 +152,10 @@ func (f *File) isDotImport(path string) bool {
 		// the "C" pseudo-package is always referenced as C
 		return false
 	}
+	if def := f.imports[path]; def.name != "" && def.name != "_" {
+		// a path that has already been rendered keeps the form it was rendered in
+		return def.name == "." && def.alias
+	}
 	if id, ok := f.hints[path]; ok {
 		return id.name == "." && id.alias
 	}
